@@ -1050,7 +1050,7 @@ func (x *c03Interp) evalBuiltin(fr *c03Frame, st *c03State, call *ast.CallExpr, 
 	case "make":
 		var out []c03EV
 		for _, o := range x.evalList(fr, st, call.Args[1:]) {
-			l := &c03V{K: c03KList, T: t, NonNil: true, Site: call}
+			l := &c03V{K: c03KList, T: t, NonNil: true, Site: call, Born: len(o.st.Trace)}
 			// make([]T, n) with n not known to be 0 already holds n (zero) elements
 			if _, isSlice := t.Underlying().(*types.Slice); isSlice && len(o.vs) > 0 && o.st.Zero(o.vs[0]) != triT {
 				l.Base = &c03V{K: c03KUnk, T: t, Key: x.fresh("made"), Z: o.st.Zero(o.vs[0]), From: []*c03V{o.vs[0]}}
